@@ -252,3 +252,38 @@ def lean_str(s):
             out.append('\\u{%x}' % o)
     out.append('"')
     return ''.join(out)
+
+
+def sample(ast, rng, maxrep=3):
+    """a random string matched by the AST (anchors give nothing); classes draw from their own ranges"""
+    t = ast[0]
+    if t == 'eps' or t in ('bol', 'eol'):
+        return ''
+    if t == 'chr':
+        return ast[1]
+    if t == 'seq':
+        return sample(ast[1], rng, maxrep) + sample(ast[2], rng, maxrep)
+    if t == 'alt':
+        return sample(ast[1] if rng.random() < 0.5 else ast[2], rng, maxrep)
+    if t in ('grp', 'ncg'):
+        return sample(ast[1], rng, maxrep)
+    if t == 'star':
+        return ''.join(sample(ast[1], rng, maxrep) for _ in range(rng.randint(0, maxrep)))
+    if t == 'plus':
+        return ''.join(sample(ast[1], rng, maxrep) for _ in range(rng.randint(1, maxrep)))
+    if t == 'opt':
+        return sample(ast[1], rng, maxrep) if rng.random() < 0.5 else ''
+    if t == 'cls':
+        c = ast[1]
+        if c[0] == 'any':
+            return rng.choice('ab1.-_')
+        neg, rs = c[1], c[2]
+        if not neg:
+            lo, hi = rng.choice(rs)
+            return chr(rng.randint(ord(lo), ord(hi)))
+        for _ in range(50):
+            x = rng.choice('abcxyz0189._-:')
+            if not any(lo <= x <= hi for lo, hi in rs):
+                return x
+        return 'q'
+    raise Unsupported('sample: ' + t)
